@@ -243,3 +243,51 @@ Section CodeGrid.
     intros e He. destruct (H e He) as [A B]. split; [exact A|rewrite T; exact B].
   Qed.
 End CodeGrid.
+
+(* ------------------------------------------------------------ the listing order of the events is irrelevant *)
+From Coq Require Import Permutation.
+Lemma vadd_swap a b c : length a = length b -> length b = length c ->
+  leq (vadd a (vadd b c)) (vadd b (vadd a c)).
+Proof.
+  intros L1 L2. apply nth_leq.
+  - rewrite !vadd_length; rewrite ?vadd_length; congruence.
+  - intros j _.
+    rewrite (nth_vadd a (vadd b c)) by (rewrite vadd_length; congruence).
+    rewrite (nth_vadd b c) by congruence.
+    rewrite (nth_vadd b (vadd a c)) by (rewrite vadd_length; congruence).
+    rewrite (nth_vadd a c) by congruence. ring.
+Qed.
+Lemma main_regressor_cons g fts h e l :
+  leq (main_regressor g fts h (e :: l)) (vadd (main_regressor g fts h [e]) (main_regressor g fts h l)).
+Proof. change (e :: l) with ([e] ++ l). apply main_regressor_app. Qed.
+Lemma main_regressor_perm g fts h evs evs' : Permutation evs evs' ->
+  leq (main_regressor g fts h evs) (main_regressor g fts h evs').
+Proof.
+  intros P. induction P as [|x l l' P IH|x y l|l l' l'' P1 IH1 P2 IH2].
+  - reflexivity.
+  - eapply leq_trans; [apply main_regressor_cons|]. eapply leq_trans; [|apply leq_sym, main_regressor_cons].
+    apply vadd_m; [reflexivity|exact IH].
+  - eapply leq_trans; [apply main_regressor_cons|]. eapply leq_trans; [|apply leq_sym, main_regressor_cons].
+    eapply leq_trans; [apply vadd_m; [reflexivity|apply main_regressor_cons]|].
+    eapply leq_trans; [|apply vadd_m; [reflexivity|apply leq_sym, main_regressor_cons]].
+    apply vadd_swap; rewrite !main_regressor_length; reflexivity.
+  - eapply leq_trans; eassumption.
+Qed.
+Lemma cond_events_perm c par par' : Permutation par par' -> Permutation (cond_events c par) (cond_events c par').
+Proof.
+  intros P. unfold cond_events. apply Permutation_map.
+  induction P as [|x l l' P IH|x y l|l l' l'' P1 IH1 P2 IH2]; simpl.
+  - constructor.
+  - destruct (String.eqb (fst x) c); [constructor|]; exact IH.
+  - destruct (String.eqb (fst x) c), (String.eqb (fst y) c); try apply perm_swap; apply Permutation_refl.
+  - eapply Permutation_trans; eassumption.
+Qed.
+(* events of other conditions do not enter a condition's regressor *)
+Lemma cond_events_other c par par2 : (forall p, In p par2 -> String.eqb (fst p) c = false) ->
+  cond_events c (par ++ par2) = cond_events c par.
+Proof.
+  intros H. unfold cond_events. rewrite filter_app, map_app.
+  assert (E : filter (fun p => String.eqb (fst p) c) par2 = []).
+  { induction par2 as [|p l IH]; simpl; [reflexivity|]. rewrite (H p) by (left; reflexivity). apply IH. intros q Hq. apply H. right. exact Hq. }
+  rewrite E. simpl. apply app_nil_r.
+Qed.
